@@ -198,6 +198,12 @@ VH_DRIVER(algebra){
       const char* pths[]={"/a/b","/a/c"}; long q=0;
       for(auto a1:auths) for(auto a2:auths) for(int pi=0;pi<2;++pi) for(int md=0;md<2;++md){ ++q; Text s=T("s:")+T(a1)+T(pths[pi]), b=T("s:")+T(a2)+T(pths[1-pi]);
         AW(true,q%2,[&]{ removebase_event<ApiA>(s,b,md,(int)(q%3==0)); },[&]{ removebase_event<ApiW>(s,b,md,(int)(q%3==0)); }); } }
+    // bases (and sources) whose paths still contain dot segments, at every position up to four segments deep
+    { long q=0; std::vector<const char*> da={"a","b",".",".."}; auto ps=seg_seqs(da,4);
+      for(auto&bp:ps){ if(bp.size()==1&&bp[0]==1) continue; bool dotted=false; { std::string sb=show(bp); dotted= sb.find("./")!=std::string::npos || sb.find("/.")!=std::string::npos || sb=="."||sb==".."; } if(!dotted) continue;
+        for(const char*sp:{"a/x","a","a/b/c/d","x","a/b/"}) for(int md=0;md<2;++md){ ++q; Text s=T("s://h/")+T(sp), b=T("s://h/")+bp;
+          AW(true,q%2,[&]{ removebase_event<ApiA>(s,b,md,(int)(q%3==0)); },[&]{ removebase_event<ApiW>(s,b,md,(int)(q%3==0)); });
+          if(q%4==0){ ++q; AW(true,q%2,[&]{ removebase_event<ApiA>(b,s,md,0); },[&]{ removebase_event<ApiW>(b,s,md,0); }); } } } }
     // operands that share one buffer (every cut of a few URIs that leaves a valid absolute URI), both directions, both modes
     { long q=0; for(const char*w:{"s://host/dir/intro.html?query#frag","s://user@hostess:8080/a/bc/def","s://h/a/b/","s:/x/yz","s://1.2.3.44/p","s://[::1]/a"}){ Text t=T(w);
         for(size_t cut=3;cut<t.size();++cut) for(int sw=0;sw<2;++sw) for(int md=0;md<2;++md){ ++q; AW(true,q%2,[&]{ removebase_shared_event<ApiA>(t,cut,sw,md,(int)(q%3==0)); },[&]{ removebase_shared_event<ApiW>(t,cut,sw,md,(int)(q%3==0)); }); } } }
@@ -232,6 +238,15 @@ VH_DRIVER(algebra){
     for(size_t i=0;i<n0;++i){ auto d=std::make_shared<Holder<ApiA>>(); if(ApiA::AddBaseUri(&d->uri,&A[i]->uri,&base->uri)==URI_SUCCESS){ d->ok=true; d->keep={A[i],base}; A.push_back(d); names.push_back("resolve("+names[i]+")");
         auto dw=std::make_shared<Holder<ApiW>>(); if(ApiW::AddBaseUri(&dw->uri,&Wd[i]->uri,&baseW->uri)==URI_SUCCESS) dw->ok=true; dw->keep={Wd[i],baseW}; Wd.push_back(dw); } }
     for(size_t i=0;i<n0;++i){ auto h=parse_holder<ApiA>(pool[i]); auto hw=parse_holder<ApiW>(pool[i]); if(h->ok && ApiA::NormalizeSyntax(&h->uri)==URI_SUCCESS && ApiW::NormalizeSyntax(&hw->uri)==URI_SUCCESS){ A.push_back(h); Wd.push_back(hw); names.push_back("normalize("+show(pool[i])+")"); } }
+    // the same text parsed as an explicit range in front of DIFFERENT following characters (always compared, never subsampled): what stands
+    // behind a component - in particular behind an empty one - is not part of it
+    { auto ranged=[&](auto tag,const Text&t,const char*trail){ typedef decltype(tag) AA; auto h=std::make_shared<Holder<AA>>(); h->src=t; h->text=to_str<typename AA::Ch>(t)+to_str<typename AA::Ch>(T(trail)); const typename AA::Ch*e=nullptr;
+        h->ok= AA::ParseSingleUriEx(&h->uri,h->text.data(),h->text.data()+t.size(),&e)==URI_SUCCESS; return h; };
+      long q=0; for(size_t i=0;i<n0;++i){ const Text&t=pool[i]; auto a1=ranged(ApiA(),t,"#zz"), a2=ranged(ApiA(),t,"0a/:?x"), a3=ranged(ApiA(),t,"%41@["); auto w1=ranged(ApiW(),t,"#zz"), w2=ranged(ApiW(),t,"0a/:?x"), w3=ranged(ApiW(),t,"%41@[");
+        if(!(a1->ok&&a2->ok&&a3->ok&&w1->ok&&w2->ok&&w3->ok)) continue; std::string nm=show(t);
+        ++q; AW(true,q%2,[&]{ equals_event<ApiA>(a1->uri,a2->uri,"range("+nm+")#zz","range("+nm+")0a/:?x"); },[&]{ equals_event<ApiW>(w1->uri,w2->uri,"range("+nm+")#zz","range("+nm+")0a/:?x"); });
+        ++q; AW(true,q%2,[&]{ equals_event<ApiA>(A[i]->uri,a3->uri,nm,"range("+nm+")%41@["); },[&]{ equals_event<ApiW>(Wd[i]->uri,w3->uri,nm,"range("+nm+")%41@["); });
+        ++q; AW(true,q%2,[&]{ equals_event<ApiA>(a2->uri,a3->uri,"range("+nm+")0a/:?x","range("+nm+")%41@["); },[&]{ equals_event<ApiW>(w2->uri,w3->uri,"range("+nm+")0a/:?x","range("+nm+")%41@["); }); } }
     long pairs=0; size_t n=A.size(); size_t total=n*n; double keep= total>(size_t)want? (double)want/total:1.0;
     for(size_t i=0;i<n;++i) for(size_t j=0;j<n;++j){ if(i!=j && keep<1.0 && (R.next()%1000000)>=keep*1000000) continue; ++pairs;
       AW(Wd[i]->ok&&Wd[j]->ok,pairs%2,[&]{ equals_event<ApiA>(A[i]->uri,A[j]->uri,names[i],names[j]); },[&]{ if(Wd[i]->ok&&Wd[j]->ok) equals_event<ApiW>(Wd[i]->uri,Wd[j]->uri,names[i],names[j]); });
